@@ -19,7 +19,8 @@
    theorems speak about stddev^2 and stderr^2 (the check compares the squares).  *)
 From Coq Require Import QArith ZArith List Bool Lia Arith Sorted Permutation.
 From CC Require Import Base.XQ Base.ListX Spec.Stats Model.Scale
-  Proofs.ScaleProofs Proofs.ScaleMedianProofs Proofs.ScaleExpandProofs Proofs.ScaleMedianFixProofs.
+  Proofs.ScaleProofs Proofs.ScaleMedianProofs Proofs.ScaleExpandProofs Proofs.ScaleMedianFixProofs
+  Proofs.ScaleZeroSpread.
 Import ListNotations.
 Local Close Scope Q_scope.
 Local Open Scope nat_scope.
@@ -63,6 +64,32 @@ Theorem C14_scale_stderr_eq ovals rs B M :
   =x= Fin (wvar_spec (observations ovals rs) / M).
 Proof. exact (scale_stderr_eq ovals rs B M). Qed.
 Print Assumptions C14_scale_stderr_eq.
+
+(* ZERO SPREAD: when every numeric-valued respondent of the vector carries the same value v (whatever
+   else the vector counts in categories without a value, and whatever the magnitude of v), stddev^2 is
+   exactly 0 and the mean is v.  (The float64 code may only be off by rounding: the input class
+   `single_valued` at magnitudes up to 1e5 of the C14 check, after seeded change C14-9.) *)
+Theorem C14_zero_spread ovals rs B v :
+  cats_below (length ovals) rs -> nonneg_weights rs -> (0 < B)%Q ->
+  ~ (wtotal (observations ovals rs) == 0)%Q ->
+  all_valued_at v (observations ovals rs) ->
+  scale_var_vec false (map Fin (tally (length ovals) rs)) (repeat (Fin B) (length ovals)) (map xval ovals)
+    =x= Fin 0
+  /\ scale_mean_vec (map Fin (tally (length ovals) rs)) (repeat (Fin B) (length ovals)) (map xval ovals)
+    =x= Fin v.
+Proof. exact (scale_zero_spread ovals rs B v). Qed.
+Print Assumptions C14_zero_spread.
+
+(* its premises are satisfiable: income mid-points, 38 respondents at 137500 and 29 who prefer not to say *)
+Example C14_example_zero_spread :
+  let ovals := [Some 12500; Some 137500; None]%Q in
+  let rs := [(1, 38%Q); (2, 29%Q)] in
+  cats_below (length ovals) rs /\ nonneg_weights rs /\
+  ~ (wtotal (observations ovals rs) == 0)%Q /\ all_valued_at 137500 (observations ovals rs).
+Proof.
+  cbv zeta. split; [repeat constructor|]. split; [repeat constructor; discriminate|].
+  split; [intros H; vm_compute in H; discriminate|]. repeat constructor.
+Qed.
 
 (* ... where the margin of a vector (sum of its counts) is the total weight of ALL its respondents,
    with or without a numeric value *)
